@@ -39,6 +39,8 @@ type c17Gen struct {
 	bs        []ast.Builder
 	nComments int
 	curPkg    string // package of the file being generated: rules prefer builders of that package
+	focus     int    // index of the builder most rules of the case are about (-1: none): sequences that
+	// keep working on one builder are what exposes forgotten members in copies and shared pointers
 }
 
 func caseVariant(r *rng, s string) string {
@@ -69,6 +71,9 @@ func (g *c17Gen) nameLike(s string) string {
 func (g *c17Gen) builder() *ast.Builder {
 	if len(g.bs) == 0 {
 		return nil
+	}
+	if g.focus >= 0 && g.focus < len(g.bs) && g.r.chance(65) {
+		return &g.bs[g.focus]
 	}
 	if g.r.chance(90) {
 		cands := []int{}
@@ -520,7 +525,10 @@ func (g *c17Gen) optionRule() (string, map[string]any) {
 
 // genVeneerFiles: 1-3 files; the rules of a file share the package of the first rule drawn for it.
 func genVeneerFiles(r *rng, schemas ast.Schemas, bs []ast.Builder, tier string) (string, []vFile) {
-	g := &c17Gen{r: r, schemas: schemas, bs: bs}
+	g := &c17Gen{r: r, schemas: schemas, bs: bs, focus: -1}
+	if len(bs) > 0 && r.chance(80) {
+		g.focus = r.intn(len(bs))
+	}
 	language := "go"
 	maxRules := 4
 	if tier == "thorough" {
@@ -533,6 +541,9 @@ func genVeneerFiles(r *rng, schemas ast.Schemas, bs []ast.Builder, tier string) 
 		files[i].Language = pick(r, []string{"all", "all", "go", "go", "java"})
 		if len(schemas) > 0 {
 			files[i].Package = pick(r, schemas).Package
+			if g.focus >= 0 && r.chance(75) {
+				files[i].Package = bs[g.focus].For.SelfRef.ReferredPkg
+			}
 		}
 		switch {
 		case r.chance(3):
